@@ -678,7 +678,8 @@ def c05(tier):
          "at every position (quick: one seeded position per target x injected-event pair), with nothing, a datagram, a WebTransport "
          "uni or bidi stream, a QPACK stream byte or a frame on another critical stream injected between the pieces (25 ms gaps), "
          "both roles, multi-thread runtime (plus current-thread in thorough); each paired with its unsegmented twin",
-         "timing: whether a tear manifests depends on the scheduler; a scenario that passes is not proof of absence"],
+         "timing: whether a tear manifests depends on the scheduler; a scenario that passes is not proof of absence "
+         "(D6, the tear of frames read inside the worker's select loop, was found here and is fixed by b91be3c)"],
         mc_cfgs=[("WireMC.tla", "WireMC_quick.cfg")], par=4, threads=4, case_of=_case_c05,
         runs=2 if tier == "thorough" else 1)
 
